@@ -1,6 +1,7 @@
 """Per-property level and explanation strings used in the evidence files."""
-LEVELS = {"C02": "proof", "C03": "proof", "C16": "proof", "C18": "other", "C10": "other", "C11": "proof", "C09": "other", "C19": "other", "C05": "other", "C07": "other", "C04": "other", "C12": "other", "C01": "other", "C13": "other", "C15": "other", "C17": "other"}
+LEVELS = {"C02": "proof", "C03": "proof", "C16": "proof", "C18": "other", "C10": "other", "C11": "proof", "C09": "other", "C19": "other", "C05": "other", "C07": "other", "C04": "other", "C12": "other", "C01": "other", "C13": "other", "C15": "other", "C17": "other", "C06": "other"}
 EXPLAIN = {
+    "C06": "BOUNDED: both lookup strategies verified against one declarative specification for a two-field parser shape over 16 presence combinations x 3 addition policies x 2 error modes, contents symbolic; complete for that shape only (see coverage.bounded)",
     "C17": "registration (R1) and single-reference resolution (R2) contracts: discharged; order independence / typing's evaluator / local scopes not decided",
     "C13": "table lemmas (validator accepts => keyword holds) and the bounded object-structure contract: discharged; whole-document validity, $defs, encoder, nested values not decided",
     "C15": "table lemmas for the parser direction: discharged; building arbitrary schemas without crash and whole-schema validity of instances not decided",
@@ -10,7 +11,7 @@ EXPLAIN = {
     "C04": "exceptional frames of the contracted parse-path functions: discharged except the listed known findings; converter-loop termination and call wrappers not decided",
     "C09": "combinator semantics: every obligation of logical_parse discharged for all inputs (abstract leaves); the construction algebra (combine, operators) is not under contract",
     "C19": "copy_value / get_default / frame and freshness obligations of the contracted parse functions: discharged; cross-call state not decided",
-    "C05": "field predicates vs documented truth tables and their consistency lemma: discharged; the two field loops are not under contract",
+    "C05": "field predicates vs documented truth tables and their consistency lemma: discharged for all inputs; the two field loops: BOUNDED to a two-field parser shape (see coverage.bounded)",
     "C18": "depth clause: every obligation generated from the contracted functions, the chain lemma and the call-site audit is discharged (proof for all inputs); cost clause (polynomial work): not decided by this technique",
     "C10": "error protocol and the contracted callers: every obligation discharged (proof for all states); the clause 'names exactly the failing top-level items' is not decided",
 }
